@@ -565,10 +565,19 @@ func c12Huge(r *core.Run) {
 	r.Probe("over-4GiB-range")
 	r.Sig(fmt.Sprintf("huge/hole=%d/split=%v/tail=%v/same=%v", hole-(1<<32), split, len(tail) > 0, samePath))
 	r.Sample = map[string]any{"huge": true, "hole": hole, "split": split, "npatches": len(ps.Patches)}
-	got, rerr := os.ReadFile(dest)
 	key := fmt.Sprintf("huge/split=%v/same=%v", split, samePath)
-	if aerr != nil || rerr != nil {
-		r.Failf("C12.apply-failed", key, "over-4-GiB range: apply failed: %v %v", aerr, rerr)
+	if st, serr := os.Stat(dest); aerr == nil && serr == nil && st.Size() > 1<<20 {
+		// never read gigabytes into memory: the size alone settles it
+		r.Failf("C12.result-differs", key, "over-4-GiB range (hole=%d, %d patches): output has %d bytes, want %d", hole, len(ps.Patches), st.Size(), len(want))
+		return
+	}
+	if aerr != nil {
+		r.Failf("C12.apply-failed", key, "over-4-GiB range: apply failed: %v (simulated disk of %d MiB full: %v)", aerr, fs.Quota>>20, fs.QuotaHit)
+		return
+	}
+	got, rerr := os.ReadFile(dest)
+	if rerr != nil {
+		r.Failf("C12.apply-failed", key, "over-4-GiB range: output unreadable: %v", rerr)
 		return
 	}
 	if !bytes.Equal(got, want) {
